@@ -35,6 +35,10 @@ def run(ctx):
     r6_pickled(ctx)
     from . import c04
     c04.r7_held_learners(ctx, c04.family(ctx), rule="C03.R7")
+    r8_stateless_wrappers(ctx)
+    r9_pickle_covers_constructor(ctx)
+    # a source that fails in one triple must not leave a truncated replay buffer for the triples that share the cached environment
+    c04.r6_replay_buffer(ctx, rule="C03.R10")
 
 
 def evaluate_calls(fn):
@@ -393,7 +397,120 @@ def r6_pickled(ctx, rule="C03.R6"):
         ctx.ob(rule, PMP, f"{cname}.filter", f, f"{cname} maps {fnname} over every item", ok, stmt=f"{cname}.filter maps {fnname}")
 
 
+_MUTABLE_CALLS = ("dict", "list", "set", "defaultdict", "OrderedDict", "Counter", "deque", "collections.defaultdict", "WeakKeyDictionary", "weakref.WeakKeyDictionary")
+
+
+def class_level_containers(tree):
+    """[(class, attr, node)] mutable containers created in a class body (shared by every instance in the process)."""
+    out = []
+    for c in ast.walk(tree):
+        if isinstance(c, ast.ClassDef):
+            for st in c.body:
+                if isinstance(st, (ast.Assign, ast.AnnAssign)) and st.value is not None:
+                    v = st.value
+                    if isinstance(v, (ast.Dict, ast.List, ast.Set, ast.DictComp, ast.ListComp, ast.SetComp)) or (isinstance(v, ast.Call) and call_name(v) in _MUTABLE_CALLS):
+                        for t in (st.targets if isinstance(st, ast.Assign) else [st.target]):
+                            if isinstance(t, ast.Name) and not t.id.startswith("__"):
+                                out.append((c.name, t.id, st))
+    return out
+
+
+def r8_stateless_wrappers(ctx):
+    from ..util import self_state_stores
+    ctx.rule("C03.R8", "nothing an evaluation touches outlives it in the process: the classes of the evaluation path (SafeLearner/SafeEvaluator/"
+                       "SafeEnvironment, Task/ProcessTasks, the built-in evaluators) own no class-level mutable container, and the built-in "
+                       "evaluators' evaluate() stores nothing on the (shared, never copied) evaluator object")
+    files = [SEQ, "coba/safety.py", PROC, "coba/evaluators/primitives.py"] + (sorted(r for r in ctx.model.modules if r.startswith("coba/evaluators/")) if ctx.thorough else [])
+    n = 0
+    for rel in dict.fromkeys(files):
+        if rel not in ctx.model.modules:
+            continue
+        ctx.touch(rel)
+        tree = ctx.model.modules[rel].tree
+        n += sum(1 for c in ast.walk(tree) if isinstance(c, ast.ClassDef))
+        for cname, attr, st in class_level_containers(tree):
+            # a class-level constant that is only ever read is fine; what matters is a container somebody grows or rewrites
+            muts = []
+            for x in ast.walk(tree):
+                if isinstance(x, ast.Attribute) and x.attr == attr and isinstance(x.value, (ast.Name, ast.Call)):
+                    par = getattr(x, "_parent", None)
+                    from ..model import parent as _par
+                    p1 = _par(x)
+                    if isinstance(p1, ast.Attribute) and p1.attr in ("setdefault", "update", "append", "add", "extend", "pop", "clear", "insert", "remove", "popitem", "discard") and isinstance(_par(p1), ast.Call):
+                        muts.append(x.lineno)
+                    if isinstance(p1, ast.Subscript) and isinstance(p1.ctx, (ast.Store, ast.Del)):
+                        muts.append(x.lineno)
+                    if isinstance(x.ctx, ast.Store):
+                        muts.append(x.lineno)
+            ctx.ob("C03.R8", rel, cname, st, f"class-level container {cname}.{attr} is a constant: nothing grows or rewrites it (it is shared by every evaluation in the process)", not muts,
+                   detail={"attribute": attr, "mutated at": muts})
+    ctx.floor("C03.R8", "classes examined on the evaluation path", n, 6)
+    base = ctx.model.cls("coba/primitives.py", "Evaluator")
+    m = 0
+    for c in ctx.model.subclasses(base):
+        if not c.rel.startswith("coba/evaluators/") and c.rel != "coba/safety.py":
+            continue
+        for name, fn in sorted(c.methods.items()):
+            if name in ("__init__", "params"):
+                continue
+            m += 1
+            ctx.touch(c.rel, f"{c.name}.{name}")
+            stores = self_state_stores(fn, c.methods.values())
+            ctx.ob("C03.R8", c.rel, f"{c.name}.{name}", fn, "the evaluator method stores nothing on the evaluator object", not stores, detail={"stores": stores}, stmt=f"{c.name}.{name} stateless")
+    ctx.floor("C03.R8", "evaluator methods examined", m, 3)
+
+
+def r9_pickle_covers_constructor(ctx):
+    ctx.rule("C03.R9", "what reaches a worker process is what was built: a class whose __reduce__ rebuilds it through its own constructor passes every "
+                       "constructor parameter (a parameter left out silently falls back to its default, e.g. Task.copy)")
+    n = 0
+    for c in ctx.model.classes:
+        if c.rel.startswith("coba/tests"):
+            continue
+        red = c.methods.get("__reduce__")
+        if red is None:
+            continue
+        init = c.methods.get("__init__") or c.methods.get("__new__")
+        for r in [x for x in walk_shallow(red) if isinstance(x, ast.Return) and isinstance(x.value, ast.Tuple)]:
+            t = r.value
+            if len(t.elts) < 2 or not isinstance(t.elts[1], ast.Tuple):
+                continue
+            callee = unparse(t.elts[0])
+            if callee not in (c.name, "type(self)", "self.__class__"):
+                continue
+            n += 1
+            ctx.touch(c.rel, f"{c.name}.__reduce__")
+            params = [a.arg for a in init.args.args[1:]] + [a.arg for a in init.args.kwonlyargs] if init is not None else []
+            has_state = len(t.elts) >= 3
+            ok = has_state or init is None or init.args.vararg is not None or len(t.elts[1].elts) == len(params)
+            ctx.ob("C03.R9", c.rel, f"{c.name}.__reduce__", r, f"{c.name}.__reduce__ passes all {len(params)} constructor parameters (or carries the state separately)", ok,
+                   detail={"constructor": params, "passed": [unparse(e) for e in t.elts[1].elts]})
+    ctx.floor("C03.R9", "classes rebuilding themselves through their constructor on unpickling", n, 2)
+    task = ctx.model.cls(PROC, "Task")
+    hooks = [m_ for m_ in ("__reduce__", "__reduce_ex__", "__getstate__", "__setstate__", "__copy__", "__deepcopy__") if m_ in task.methods]
+    if not hooks:
+        ctx.ob("C03.R9", PROC, "Task", task.node if hasattr(task, "node") else None, "Task is pickled by the default protocol (every attribute, incl. the copy flag, travels to the worker)", True, stmt="Task default pickling", line=1)
+
+
+def _task_reduce(tree):
+    from ..mutate import find_def
+    cls = find_def(tree, "Task")
+    cls.body.append(ast.parse("def __reduce__(self):\n    return (Task, ((self.env_id, self.env), (self.lrn_id, self.lrn), (self.val_id, self.val)))").body[0])
+
+
+def _class_cache(tree):
+    from ..mutate import find_def
+    cls = find_def(tree, "SafeLearner")
+    cls.body.insert(1, ast.parse("_METHODS = {}").body[0])
+    init = find_def(tree, "SafeLearner.__init__")
+    for st in ast.walk(init):
+        if isinstance(st, ast.Assign) and ast.unparse(st.targets[0]) == "self._method":
+            st.value = ast.parse("SafeLearner._METHODS.setdefault(type(self.learner), {})", mode="eval").body
+
+
 CONTROLS = [
+    ("Task.__reduce__ forgets the copy flag", PROC, _task_reduce, "C03.R9"),
+    ("call convention remembered per learner class", "coba/safety.py", _class_cache, "C03.R8"),
     ("drop deepcopy", PROC, M.replace_stmt("ProcessTasks.filter", M.text_has("lrn = deepcopy(lrn)"), "pass"), "C03.R1"),
     ("copy=False", PROC, M.replace_expr("MakeTasks.read", "learner_counts[lrn] > 1", "False"), "C03.R2"),
     ("count over remaining", PROC, M.replace_expr("MakeTasks.read", "Counter([l for _, l, _ in self._triples])",
